@@ -2262,15 +2262,16 @@ SESS_WANT = {
 }
 
 SESS_LEAN = """
-/-- what the closure returned by `model_impl.py::build_run_model(backend, base_params, dyn_params, solver=…)` captures (MODELLED, see
-`Model/Session.lean`): the non-dynamic main-graph parameters evaluated by `graph.freeze` (`none`: a value is missing), the dynamic
+/-- what the closure returned by `model_impl.py::build_run_model(backend, base_params, dyn_params, solver=…)` captures (the statements that
+compute `dyn_params`, call `graph.freeze`, merge the default solver arguments, dispatch on the solver and capture `do_base_params` are
+pinned as an ordered subsequence of the function; `graph.freeze` itself — computegraph — is modelled, see `Model/Session.lean`): the non-dynamic main-graph parameters evaluated by `graph.freeze` (`none`: a value is missing), the dynamic
 main-graph parameters, and `do_base_params` -/
 def build_run_model (defn : Definition δ) (base_params : Dict ν) (dyn_params : Option (List String)) : Option (Dict ν × List String × Dict ν) :=
   match collect base_params.get (frozenKeys defn dyn_params) with
   | none => none
   | some fr => some (fr, dynMain defn dyn_params, Dict.filterKeys defn.doParams base_params)
 
-/-- the closure `run_model(parameters)` (MODELLED): dynamic inputs from the call's parameters, the others frozen;
+/-- the closure `run_model(parameters)` (its parameter-handling statements are pinned, see above): dynamic inputs from the call's parameters, the others frozen;
 `do_full_params = do_base_params.copy(); do_full_params.update(parameters)` -/
 def run_func (defn : Definition δ) (r : Runner ν σ) (base_params : Dict ν) : Outcome ν σ :=
   let mainF := fun k => if r.dyn.contains k then base_params.get k else r.frozen.get k
@@ -2335,6 +2336,83 @@ def gen_session(tree, out, report):
             if body != wanted:
                 k = next((i for i, (a, b_) in enumerate(zip(body, wanted)) if a != b_), min(len(body), len(wanted)))
                 raise Untranslatable(f"{cname}.{fname}: statement {k} is not the expected text: " + (body[k][:160] if k < len(body) else "<missing>"))
+        # model_impl.py::build_run_model: the statements that decide which parameters are dynamic, frozen, or captured for the derived outputs,
+        # the merge of the default solver arguments and the solver dispatch must be present, in this order (a subsequence of the function's
+        # statements, nested closures included)
+        with open(os.path.join(REPO, "summer2/runner/jax/model_impl.py")) as f_:
+            itree = ast.parse(f_.read())
+        brm = [n for n in itree.body if isinstance(n, ast.FunctionDef) and n.name == "build_run_model"]
+        if not brm:
+            raise Untranslatable("model_impl.build_run_model not found")
+        if [a.arg for a in brm[0].args.args] != ["runner", "base_params", "dyn_params", "solver", "solver_args", "derived_outputs", "include_full_outputs"]:
+            raise Untranslatable("signature of build_run_model")
+        flat = []
+        def walk(stmts):
+            for st in stmts:
+                if isinstance(st, ast.Expr) and isinstance(st.value, ast.Constant): continue
+                if isinstance(st, (ast.If,)):
+                    flat.append("if " + ast.unparse(st.test) + ":"); walk(st.body)
+                    if st.orelse: flat.append("else:"); walk(st.orelse)
+                elif isinstance(st, ast.FunctionDef):
+                    flat.append("def " + st.name + "(" + ", ".join(a.arg for a in st.args.args) + "):"); walk(st.body)
+                elif isinstance(st, ast.For):
+                    flat.append("for " + ast.unparse(st.target) + " in " + ast.unparse(st.iter) + ":"); walk(st.body)
+                else:
+                    flat.append(ast.unparse(st))
+        walk(brm[0].body)
+        want_seq = [
+            "if dyn_params is None:",
+            "dyn_params = runner.model.get_input_parameters()",
+            "dyn_params = [f'parameters.{p}' if not p.startswith('parameters.') else p for p in dyn_params]",
+            "model_graph_keys = set(runner.model.graph.dag)",
+            "dyn_params = [k for k in dyn_params if k in model_graph_keys]",
+            "if base_params is None:",
+            "base_params = {}",
+            "source_inputs = {'parameters': base_params}",
+            "ts_vars = runner.model.graph.query('model_variables')",
+            "dyn_params = set(dyn_params).union(set(ts_vars))",
+            "param_frozen_cg, _ = runner.model.graph.freeze(dyn_params, source_inputs)",
+            "timestep_cg, static_cg = param_frozen_cg.freeze(ts_vars)",
+            "timestep_graph_func = timestep_cg.get_callable()",
+            "static_graph_func = static_cg.get_callable()",
+            "if solver is None or solver == SolverType.SOLVE_IVP:",
+            "solver = SolverType.ODE_INT",
+            "if solver == SolverType.ODE_INT:",
+            "if solver_args is None:",
+            "solver_args = {}",
+            "solver_args = SolverArgs.DEFAULT | solver_args",
+            "def get_ode_solution(initial_population, times, static_graph_vals, model_data):",
+            "return ode.odeint(get_comp_rates, initial_population, times, static_graph_vals, model_data, **solver_args)",
+            "if solver == SolverType.RUNGE_KUTTA:",
+            "return solvers.rk4(get_comp_rates, initial_population, times, static_graph_vals, model_data)",
+            "if solver == SolverType.EULER:",
+            "return solvers.euler(get_comp_rates, initial_population, times, static_graph_vals, model_data)",
+            "do_cg, calc_derived_outputs = build_derived_outputs_runner(runner.model, whitelist=derived_outputs)",
+            "do_params = set([v.key for v in m._do_tracker_graph.get_input_variables() if v.source == 'parameters'])",
+            "do_base_params = {k: v for k, v in base_params.items() if k in do_params}",
+            "def run_model(parameters):",
+            "static_graph_vals = static_graph_func(parameters=parameters)",
+            "initial_population = calc_initial_pop(static_graph_vals)",
+            "outputs = get_ode_solution(initial_population, times, static_graph_vals, model_data)",
+            "out_flows, out_cv = get_flows_for_outputs(outputs, static_graph_vals, model_data)",
+            "model_variables = {'outputs': outputs, 'flows': out_flows, 'computed_values': out_cv}",
+            "do_full_params = do_base_params.copy()",
+            "do_full_params.update(parameters)",
+            "derived_outputs = calc_derived_outputs(parameters=do_full_params, model_variables=model_variables)",
+        ]
+        pos = 0
+        for w in want_seq:
+            try:
+                pos = flat.index(w, pos) + 1
+            except ValueError:
+                raise Untranslatable("build_run_model: expected statement not found (in order): " + w[:140])
+        # the names these statements define must not be rebound anywhere else in the function
+        for nm in ("dyn_params", "base_params", "do_base_params", "do_full_params", "solver_args", "solver"):
+            n_bind = sum(1 for x in flat if x.startswith(nm + " = ") or x.startswith(nm + ", "))
+            n_want = sum(1 for x in want_seq if x.startswith(nm + " = ") or x.startswith(nm + ", "))
+            extra_ok = {"solver_args": 1}.get(nm, 0)      # the diffrax branch has its own `solver_args = {}` default
+            if n_bind > n_want + extra_ok:
+                raise Untranslatable(f"build_run_model: `{nm}` is assigned in a statement that is not pinned")
         out.append(SESS_LEAN)
         report["model.py session"] = "ok"
     except Untranslatable as e:
